@@ -1,5 +1,6 @@
 import Bgpfu.Spec.HelloGrammar
 import Bgpfu.Lemmas.Readers
+import Bgpfu.Lemmas.CapsExact
 /-! The hello reader loops refine the child-level semantics (C12). -/
 namespace Xml
 
@@ -110,5 +111,139 @@ theorem establish_doc (c : RCfg) (adv : Bool) (o : UriOracle) (raw : String) (at
   cases helloAbs c o none none cs with
   | error e => simp [liftP]
   | ok h => simp only [liftP, fromXmlHello]; cases highestCommon (clientAdvertised adv) h.caps <;> rfl
+
+end Xml
+
+/-! ## where the capabilities of an accepted hello come from; the text helpers of the two models agree -/
+namespace Xml
+
+/-- the capabilities a `<capabilities>` element yields are exactly the parsed texts of its leaves -/
+theorem capsAbs_mem_iff (c : RCfg) (o : UriOracle) (acc : List Capability) (ccs : List CapLeaf)
+    (caps : List Capability) (h : capsAbs c o acc ccs = .ok caps) (k : Capability) :
+    k ∈ caps ↔ k ∈ acc ∨ ∃ span inner, CapLeaf.cap span inner ∈ ccs ∧ parseCapability o (c.tok span) = .ok k := by
+  induction ccs generalizing acc with
+  | nil => simp only [capsAbs, Except.ok.injEq] at h; subst h; simp
+  | cons x xs ih =>
+    cases x with
+    | comment =>
+      simp only [capsAbs] at h
+      split at h
+      · rw [ih acc h]; simp
+      · cases h
+    | cap span inner =>
+      simp only [capsAbs] at h
+      split at h
+      · next v hv =>
+        rw [ih _ h]
+        simp only [List.mem_append, List.mem_cons, CapLeaf.cap.injEq, List.not_mem_nil, or_false]
+        constructor
+        · rintro ((hk | rfl) | ⟨sp, inn, hm, hp⟩)
+          · exact .inl hk
+          · exact .inr ⟨span, inner, .inl ⟨rfl, rfl⟩, hv⟩
+          · exact .inr ⟨sp, inn, .inr hm, hp⟩
+        · rintro (hk | ⟨sp, inn, (⟨rfl, rfl⟩ | hm), hp⟩)
+          · exact .inl (.inl hk)
+          · rw [hv] at hp; cases hp; exact .inl (.inr rfl)
+          · exact .inr ⟨sp, inn, hm, hp⟩
+      · cases h
+
+/-- the capability list of an accepted hello is that of one of its `<capabilities>` children -/
+theorem helloAbs_caps (c : RCfg) (o : UriOracle) (caps : Option (List Capability)) (sid : Option Nat)
+    (cs : List HChild) (h : Hello) (hh : helloAbs c o caps sid cs = .ok h) :
+    caps = some h.caps ∨ ∃ r ccs, HChild.caps r ccs ∈ cs ∧ capsAbs c o [] ccs = .ok h.caps := by
+  induction cs generalizing caps sid with
+  | nil =>
+    simp only [helloAbs] at hh
+    split at hh
+    · cases hh; exact .inl rfl
+    · cases hh
+  | cons x xs ih =>
+    cases x with
+    | comment =>
+      simp only [helloAbs] at hh
+      rcases ih _ _ hh with h1 | ⟨r, ccs, hm, hc⟩
+      · exact .inl h1
+      · exact .inr ⟨r, ccs, by simp [hm], hc⟩
+    | caps r ccs =>
+      simp only [helloAbs] at hh
+      split at hh
+      · split at hh
+        · next v hv =>
+          rcases ih _ _ hh with h1 | ⟨r', ccs', hm, hc⟩
+          · cases h1; exact .inr ⟨r, ccs, by simp, hv⟩
+          · exact .inr ⟨r', ccs', by simp [hm], hc⟩
+        · cases hh
+      · cases hh
+    | sid s i =>
+      simp only [helloAbs] at hh
+      split at hh
+      · split at hh
+        · rcases ih _ _ hh with h1 | ⟨r, ccs, hm, hc⟩
+          · exact .inl h1
+          · exact .inr ⟨r, ccs, by simp [hm], hc⟩
+        · cases hh
+      · cases hh
+
+theorem splitOnChar_eq (c : Char) (l : List Char) : splitOnChar c l = Caps.splitOn c l := by
+  induction l with
+  | nil => rfl
+  | cons x xs ih =>
+    simp only [splitOnChar, Caps.splitOn, ih, beq_iff_eq]
+    split
+    · rfl
+    · cases Caps.splitOn c xs <;> rfl
+
+theorem splitOnce_eq (c : Char) (l : List Char) : splitOnce c l = Caps.splitOnce c l := by
+  induction l with
+  | nil => rfl
+  | cons x xs ih => simp only [splitOnce, Caps.splitOnce, ih, beq_iff_eq]
+
+/-- the `:url:1.0` scheme lists of the two models (`String` here, `List Char` in `Caps`) agree -/
+theorem urlSchemes_eq (q : String) : urlSchemes q = (Caps.urlSchemes q.toList).map String.ofList := by
+  unfold urlSchemes Caps.urlSchemes
+  rw [List.map_flatMap, splitOnChar_eq]
+  congr 1
+  funext pair
+  rw [splitOnce_eq]
+  cases Caps.splitOnce '=' pair with
+  | none => rfl
+  | some kv =>
+    obtain ⟨k, v⟩ := kv
+    simp only [splitOnChar_eq, beq_iff_eq]
+    split <;> rfl
+
+end Xml
+
+namespace Xml
+
+/-- the five components are exactly these: in particular **no** query and **no** fragment — a
+present but empty one (`some ""`, as in `…base:1.0#` or `…base:1.0?`) does not qualify.
+(`queryUnesc` is an annotation of the query and plays no part.) -/
+def UriParts.Is (u : UriParts) (scheme : String) (authority : Option String) (path : String) : Prop :=
+  u.scheme = scheme ∧ u.authority = authority ∧ u.path = path ∧ u.query = none ∧ u.fragment = none
+
+instance (u : UriParts) (s : String) (a : Option String) (pa : String) : Decidable (u.Is s a pa) := by
+  unfold UriParts.Is; infer_instance
+
+set_option hygiene false in
+/-- proves `classifyCapability s u = <exact capability> ↔ u.Is …` by walking down the `if` chain -/
+macro "xml_exact" : tactic => `(tactic| (
+  constructor
+  · intro h
+    unfold classifyCapability at h
+    dsimp only at h
+    unfold UriParts.Is
+    repeat' (replace h := Caps.ite_cases h; rcases h with ⟨hc, h⟩ | ⟨_, h⟩)
+    all_goals first | (cases h; done) | skip
+    all_goals (
+      simp only [Bool.and_eq_true, beq_iff_eq, Option.isNone_iff_eq_none] at hc
+      simp only [hc, and_self])
+  · rintro ⟨h1, h2, h3, h4, h5⟩
+    obtain ⟨sc, au, pa, qu, fr, qe⟩ := u
+    simp only at h1 h2 h3 h4 h5
+    subst h1 h2 h3 h4 h5
+    unfold classifyCapability
+    dsimp only
+    repeat (first | rw [if_neg (by decide)] | rw [if_pos (by decide)])))
 
 end Xml
